@@ -358,6 +358,102 @@ def check_recode(res, facts):
         rule.bad("ark_ff|find_relaxed_naf|len-3", "`len - 3` / `len - 2` are computed without a preceding length test: inputs whose NAF has fewer than 3 digits (e.g. [1]) underflow / index out of bounds", fn.loc)
 
 
+# ---- R-SHIFT (proof by abstract interpretation over GF(2)-affine bit vectors) -----------------------------
+
+def check_shifts(res, facts, tier):
+    """muln / divn / <<= / >>= / mul2 / div2 of BigInt<N> agree with shifts of the N*64-bit integer (saturating to zero for
+    amounts >= 64N), for EVERY limb content: one abstract run per (N, shift amount) in the domain where each result bit is
+    an XOR of input bits; all amounts 0 .. 64N+1 and N in a set of limb counts."""
+    from arklib import bvinterp as BI
+    rule = res.rule("R-SHIFT", "BigInt shifts equal integer shifts for all limb contents, all amounts and several limb counts [GF(2)-affine abstract interpretation of the MIR]", 6)
+    BIG = "ark_ff::biginteger::BigInt"
+    targets = {}
+    for f in facts.fns(unit="ws", crate="ark_ff"):
+        if f.kind == "Closure" or f.self_head != BIG:
+            continue
+        if f.name in ("muln", "divn", "mul2", "div2") and (f.trait_impl or "").endswith("BigInteger"):
+            targets[f.name] = f
+        if f.name in ("shl_assign", "shr_assign") and ((f.impl or {}).get("trait_args") or ["", ""])[-1] == "u32":
+            targets[f.name] = f
+    ns = (1, 2, 3, 4, 6) if tier == "thorough" else (1, 2, 4)
+    spec = {"muln": "shl", "shl_assign": "shl", "divn": "shr", "shr_assign": "shr", "mul2": "shl1", "div2": "shr1"}
+    for name, kind in spec.items():
+        f = targets.get(name)
+        key = "ark_ff|BigInt::%s" % name
+        if f is None:
+            rule.bad(key, "anchor missing")
+            continue
+        cases = 0
+        failed = None
+        for n in ns:
+            amounts = [None] if kind in ("shl1", "shr1") else list(range(0, 64 * n + 2))
+            for amt in amounts:
+                limbs = BI.Slice([BI.BV.word(k) for k in range(n)])
+                big = BI.Struct({0: limbs})
+                holder = {"self": big}
+                args = {1: BI.Ref(holder, "self")}
+                if amt is not None:
+                    args[2] = amt
+
+                def model(nm, argv, t, n=n):
+                    if nm == "from" and len(argv) == 1 and isinstance(argv[0], int):
+                        return BI.Struct({0: BI.Slice([argv[0]] + [0] * (n - 1))})
+                    return NotImplemented
+                try:
+                    vals, end = BI.run(f, args, params={"N": n}, call_model=model, max_steps=20000)
+                except BI.Stop as e:
+                    failed = ("undecided", "N = %d, amount %s: %s" % (n, amt, e))
+                    break
+                cases += 1
+                # the receiver may have been replaced wholesale (*self = Self::from(0))
+                cur = holder["self"]
+                out = cur.fields[0].items if isinstance(cur, BI.Struct) else None
+                if out is None or len(out) != n:
+                    failed = ("undecided", "N = %d, amount %s: result not a BigInt" % (n, amt))
+                    break
+                sh = amt if amt is not None else 1
+                left = kind in ("shl", "shl1")
+                total = 64 * n
+                for i in range(n):
+                    v = out[i]
+                    if isinstance(v, int):
+                        v = BI.BV([0] * 64, v)
+                    for j in range(64):
+                        pos = 64 * i + j
+                        src = pos - sh if left else pos + sh
+                        want = (1 << src) if (0 <= src < total and sh < total) else 0
+                        row, c = v.bit(j)
+                        if row != want or c:
+                            failed = ("violation", "N = %d, shift by %s: result bit %d is %s, expected %s" % (n, sh, pos, _srcname(row, c), ("input bit %d" % src) if want else "0"))
+                            break
+                    if failed:
+                        break
+                if failed:
+                    break
+                if kind == "shl1" and not failed:
+                    # mul2 returns the bit shifted out: the top bit of the input
+                    rv = vals.get(0)
+                    if isinstance(rv, bool) or isinstance(rv, int):
+                        rv = BI.BV([0] * 64, int(rv))
+                    if not (isinstance(rv, BI.BV) and rv.bit(0) == (1 << (total - 1), 0) and all(rv.is_zero_bit(j) for j in range(1, 64))):
+                        failed = ("violation", "N = %d: mul2 does not return the bit shifted out (input bit %d)" % (n, total - 1))
+                if failed:
+                    break
+            if failed:
+                break
+        if failed and failed[0] == "violation":
+            rule.bad(key, failed[1] + ": the operation is not the integer shift", f.loc)
+        elif failed:
+            rule.undecided(key, "abstract interpretation stopped (%s)" % failed[1], f.loc)
+        else:
+            rule.ok(key, "equals the %s of the %s-bit integer for all limb contents; %d (N, amount) cases, N in %s" % ({"shl": "left shift (saturating at 64N)", "shr": "right shift (saturating at 64N)", "shl1": "left shift by one", "shr1": "right shift by one"}[kind], "64N", cases, list(ns)), f.loc)
+
+
+def _srcname(row, c):
+    xs = ["bit %d" % i for i in range(row.bit_length()) if (row >> i) & 1]
+    return (" ^ ".join(xs) if xs else "0") + (" ^ 1" if c else "")
+
+
 def run(ctx, res):
     facts = ctx.facts(["ws"])
     res.analysed = facts.stats()
@@ -366,6 +462,7 @@ def run(ctx, res):
     check_discard(res, facts)
     check_endian(res, facts)
     check_recode(res, facts)
+    check_shifts(res, facts, ctx.tier)
     return {
         "level": "other",
         "explanation": "Word-level proof obligations for the six limb primitives (polynomial identity modulo the decomposition of each u128 intermediate into low and high 64-bit words), loop-carried carry threading of multi-limb add/sub, a frozen table of every dropped carry/borrow flag and wrapping operation in ark-ff's big-integer and prime-field code, delegation of big-endian conversions, and guardedness of the recoding's index arithmetic. Agreement with arbitrary-precision arithmetic for all operands (shifts, multiplication, parsing/printing) and that the signed-digit recodings reconstruct the value are NOT decided.",
